@@ -100,6 +100,7 @@ class AtomTable:
         self._apps: List[Tuple[str, tuple, str]] = []
         self._sqrts: List[Tuple["Poly", str]] = []
         self._units: List[Tuple["Rat", str]] = []
+        self._sqrt_vals: List[Tuple["Rat", "Rat"]] = []
 
     # -- declaration -----------------------------------------------------
     def real(self, name, sign=None) -> "Rat":
@@ -135,31 +136,42 @@ class AtomTable:
         return Rat.atom(self, nm)
 
     def sqrt_of(self, rad: "Rat") -> "Rat":
-        """sqrt of a real term (principal, non-negative)."""
+        """Principal sqrt of a real term.  Equal radicands (as rational
+        functions) give the same value whatever their representation."""
+        for r0, v0 in self._sqrt_vals:
+            if r0 == rad:
+                return v0
         if rad.den.is_const():
             c = rad.den.const_value()
             p = rad.num.scale(c.inv())
             den_root = None
         else:
-            # sqrt(n/d) = sqrt(n*d)/d  (d != 0)
+            # sqrt(n/d) = sqrt(n*d)/d  needs d > 0
+            if _sign_poly(rad.den) != "pos":
+                raise AlgError(f"sqrt of a quotient whose denominator has unknown sign: {rad.den}")
             p = rad.num * rad.den
             den_root = rad.den
+        out = None
         if p.is_const():
             c = p.const_value()
             if c.im == 0 and c.re >= 0:
                 r = _fr_sqrt(c.re)
                 if r is not None:
                     out = Rat.const(self, r)
-                    return out / Rat(self, den_root) if den_root is not None else out
-        for q, nm in self._sqrts:
-            if q == p:
-                out = Rat.atom(self, nm)
-                return out / Rat(self, den_root) if den_root is not None else out
-        nm = f"sqrt{len(self._sqrts)}<{p}>"
-        self._sqrts.append((p, nm))
-        self.atoms[nm] = AtomInfo(nm, "sqrt", radicand=p, sign="nonneg")
-        out = Rat.atom(self, nm)
-        return out / Rat(self, den_root) if den_root is not None else out
+        if out is None:
+            for q, nm in self._sqrts:
+                if q == p:
+                    out = Rat.atom(self, nm)
+                    break
+        if out is None:
+            nm = f"sqrt{len(self._sqrts)}<{p}>"
+            self._sqrts.append((p, nm))
+            self.atoms[nm] = AtomInfo(nm, "sqrt", radicand=p, sign="nonneg")
+            out = Rat.atom(self, nm)
+        if den_root is not None:
+            out = out / Rat(self, den_root)
+        self._sqrt_vals.append((rad, out))
+        return out
 
     def app(self, fname: str, args: Iterable["Rat"], kind="real", sign=None) -> "Rat":
         args = tuple(args)
@@ -472,6 +484,38 @@ class Rat:
                 self.den = Poly.const(T, 1)
         if self.num.is_zero():
             self.den = Poly.const(T, 1)
+        elif not self.den.is_const():
+            self._cancel_monomial()
+
+    def _cancel_monomial(self):
+        """Divide numerator and denominator by their common monomial factor."""
+        common = None
+        for poly in (self.num, self.den):
+            for m in poly.terms:
+                d = dict(m)
+                if common is None:
+                    common = d
+                else:
+                    for a in list(common):
+                        e = min(common[a], d.get(a, 0)) if common[a] > 0 else 0
+                        if e <= 0:
+                            del common[a]
+                        else:
+                            common[a] = e
+                if not common:
+                    return
+        if not common:
+            return
+        def div(poly):
+            t = {}
+            for m, c in poly.terms.items():
+                d = dict(m)
+                for a, e in common.items():
+                    d[a] = d.get(a, 0) - e
+                t[tuple(sorted((a, e) for a, e in d.items() if e != 0))] = c
+            return Poly(self.T, t)
+        self.num = div(self.num)
+        self.den = div(self.den)
 
     @staticmethod
     def const(T, c) -> "Rat":
